@@ -723,6 +723,7 @@ fn run_coreobj_cmd(args: &[String]) -> i32 {
                                 "payload" => cops.push(COp::Payload(conc_of(v))),
                                 "footer" => cops.push(COp::Footer(conc_of(v))),
                                 "assertion" => cops.push(COp::Assertion(conc_of(v))),
+                                "clone" => cops.push(COp::CloneObj),
                                 "mint" => cops.push(COp::Mint { key: 0, seed: if o["s"] == "s2" { seeds[1] } else { seeds[0] } }),
                                 _ => {}
                             }
